@@ -828,8 +828,10 @@ async fn stream_scenario(p: StreamPlan) {
                     return;
                 }
                 if kind == RKind::UnknownId {
-                    exec::violate("C16.stream.route", "unknown-id", format!("request {i} completed with an unknown-id response"));
-                    return;
+                    // The peer invents an id no query *it has seen* uses; a request whose query was
+                    // still in flight can hold exactly that id (1 in 65536). The ids are equal
+                    // here (checked above), so completing the request is what the statement asks.
+                    exec::count("probe.invented_id_collided_with_in_flight_request");
                 }
             }
             Ok(None) => {
